@@ -23,6 +23,7 @@ mod h_proc;
 mod h_ps;
 mod h_reloc;
 mod h_rr;
+mod h_rrdyn;
 mod h_thr;
 mod h_ws;
 mod h_zc;
@@ -45,6 +46,8 @@ fn harnesses() -> Vec<Box<dyn Harness>> {
         Box::new(h_exp::ExpiredConnHarness { prop: "C01", ipc: false }),
         Box::new(h_thr::PubSubThreads { prop: "C02", ipc: false }),
         Box::new(h_zc::ConnDataHarness { prop: "C02" }),
+        Box::new(h_rrdyn::ReqRespDynHarness { ipc: true }),
+        Box::new(h_rrdyn::ReqRespDynHarness { ipc: false }),
         Box::new(h_c03::QueueHarness { kind: "iq" }),
         Box::new(h_c03::QueueHarness { kind: "oq" }),
         Box::new(h_c03::QueueHarness { kind: "q" }),
